@@ -67,12 +67,15 @@ def Env.get (env : Env) (n : String) : Option Int :=
   | [] => none
   | (k, v) :: rest => if k == n then some v else Env.get rest n
 
+/-- `checked_add` / `checked_sub` / `checked_mul` on `i64`: a result outside the range is the Overflow error -/
+def narrow (v : Int) : Except IErr Int := if inI64 v then .ok v else .error .overflow
+
 def CE.eval (env : Env) : CE → Except IErr Int
   | .lit i => .ok i
   | .var n => match env.get n with | some v => .ok v | none => .error .undeclared
-  | .add a b => do pure ((← a.eval env) + (← b.eval env))
-  | .sub a b => do pure ((← a.eval env) - (← b.eval env))
-  | .mul a b => do pure ((← a.eval env) * (← b.eval env))
+  | .add a b => do narrow ((← a.eval env) + (← b.eval env))
+  | .sub a b => do narrow ((← a.eval env) - (← b.eval env))
+  | .mul a b => do narrow ((← a.eval env) * (← b.eval env))
 
 /-- `compute_indexes`: an unbound identifier index is a literal name fragment -/
 def idxFrag (env : Env) : CE → Except IErr String
